@@ -106,6 +106,14 @@ def _apply_op(prog, it, home: FuncInfo, op, args):
     if op[0] == "lam":
         r = it.call_value(op, tuple(args))
         return _norm_ops(r) if r is not None else None
+    if op[0] == "call" and op[1][0] == "name" and not op[3]:
+        # an operator MADE on the spot by a package factory: _reflected(operator.sub)
+        fac = prog.functions.get(f"{home.module}.{op[1][1]}")
+        if fac is not None and len(fac.params) == len(op[2]) and not isinstance(fac.node, ast.Lambda):
+            sub = Interp(prog, fac, args=dict(zip(fac.params, op[2])))
+            if len(sub.returns) == 1 and not sub.returns[0][0] and not sub.falls_through and sub.returns[0][1][0] == "lam":
+                r = sub.call_value(sub.returns[0][1], tuple(args))
+                return _norm_ops(r) if r is not None else None
     return None
 
 
@@ -236,6 +244,45 @@ def _dispatch(ctx) -> None:
             raise AnalysisError(f"Table.{name} vanished")
         want = ("bin", _BIN[name.strip("_")], _A, _B)
         check(f, "_table_elementwise_operation", None, want, f"Table.{name}: the kernel operator computes {show(want)}")
+    # reflected and unary operators: a Table must override them too - the inherited Vector versions iterate a table's ROWS
+    tcls = prog.cls("Table")
+    for name in ("__radd__", "__rsub__", "__rmul__", "__rtruediv__", "__rfloordiv__", "__rmod__", "__rpow__"):
+        f = tcls.methods.get(name)
+        if f is None:
+            ctx.ob("a.dispatch", prog.func("table.Table._table_elementwise_operation"), f"table-{name}", False, "", None,
+                   message=f"Table does not define {name}: `scalar {name[3:-2]} table` falls back to Vector.{name}, which iterates the table's rows "
+                           f"- the result loses the column names or comes back transposed")
+            continue
+        want = ("bin", _BIN[name.strip("_")[1:]], _B, _A)
+        check(f, "_table_elementwise_operation", None, want, f"Table.{name}: the kernel operator computes {show(want)}")
+    for name, uop in (("__neg__", ("un", "USub", _A)), ("__pos__", ("un", "UAdd", _A)), ("__abs__", ("call", ("name", "abs"), (_A,), ())),
+                      ("__invert__", ("un", "Invert", _A))):
+        f = tcls.methods.get(name)
+        if f is None:
+            ctx.ob("a.dispatch", prog.func("table.Table._table_elementwise_operation"), f"table-{name}", False, "", None,
+                   message=f"Table does not define {name}: the unary operator falls back to Vector.{name}, which iterates the table's rows - "
+                           f"the result comes back transposed")
+            continue
+        check(f, "_table_unary_operation", None, uop, f"Table.{name}: applied column by column", nargs=1)
+    # the unary table kernel: op_func(col) for every column of self
+    uk = tcls.methods.get("_table_unary_operation")
+    if uk is not None:
+        from ..sites2 import all_sites2, comp_parts, leaves
+        USELF, UOP = ("param", uk.params[0]), ("param", uk.params[1])
+        ucols = ("call", ("attr", USELF, "cols"), (), ())
+        up = []
+        nn = 0
+        for st in all_sites2(prog):
+            if st.top is not uk or st.kind != "Table":
+                continue
+            nn += 1
+            for d in leaves(st.data):
+                cp = comp_parts(st.it, d)
+                if cp is None or len(cp[0]) != 1 or cp[1] or st.it.loops[cp[0][0]].iter not in (ucols, ("attr", USELF, "_underlying")) \
+                        or cp[2] != ("call", UOP, (("elem", st.it.loops[cp[0][0]].iter, cp[0][0]),), ()):
+                    up.append(f"`{st.sh(d, 50)}` is not op_func(col) for every column of self")
+        ctx.ob("d.table-arithmetic", uk, "unary", not up and nn > 0, "unary table kernel maps op_func over all columns", uk.node,
+               message="; ".join(up) or "no Table result in _table_unary_operation")
     # _unary_operation kernel
     f, sites = _kernel_sites(prog, "vector.Vector._unary_operation")
     from ..symx import NONE as SNONE
@@ -864,6 +911,14 @@ def _resolve(ctx) -> None:
 
 _V, _T = "vector", "table"
 MUTANTS = [
+    dict(id="table-rsub-missing", module="table",
+         old="	def __rsub__(self, other):\n		return self._table_elementwise_operation(other, _reflected(operator.sub), '__rsub__', '-')\n", new="",
+         rules=["a.dispatch"], desc="part of the defect repaired by fix 2417993: 5 - t falls back to Vector.__rsub__ (rows)"),
+    dict(id="table-neg-missing", module="table", old="	def __neg__(self):\n		return self._table_unary_operation(operator.neg)\n", new="",
+         rules=["a.dispatch"], desc="part of the defect repaired by fix 2417993: -t comes back transposed"),
+    dict(id="table-rsub-not-reflected", module="table",
+         old="		return self._table_elementwise_operation(other, _reflected(operator.sub), '__rsub__', '-')",
+         new="		return self._table_elementwise_operation(other, operator.sub, '__rsub__', '-')", rules=["a.dispatch"]),
     dict(id="date-add-ignores-plain-sequences", module="vector",
          old="		if isinstance(other, (list, tuple)) and other and all(y is None or (isinstance(y, int) and not isinstance(y, bool)) for y in other):\n			# a plain sequence of day counts is handled like a vector of them\n			other = Vector(other)\n",
          new="", rules=["e.wrappers"], desc="the defect repaired by fix 3c6ed23"),
